@@ -26,6 +26,12 @@ impl ResourcesState {
         })
     }
 
+    /// Where files of `other` (the outputs a build just wrote) are among the files that
+    /// `resources` (its inputs) denote, their state in `other` replaces the one held here.
+    pub async fn adopt_files(&mut self, resources: &Resources, other: &Self) {
+        self.fs.adopt(&resources.files, &other.fs).await
+    }
+
     pub async fn eq_current_state(&self, resources: &Resources) -> bool {
         both(
             self.fs.eq_current_state(&resources.files),
